@@ -16,6 +16,7 @@ From AV Require Import model.Proto model.Bits model.Lists model.Chain model.Prog
   model.Heuristic model.Contfrac model.Decomp model.Opt model.Runs model.Binary model.Dict model.Ensemble
   proofs.C01Aux proofs.BinaryProofs proofs.DictProofs proofs.PrimitiveProofs proofs.ContfracProofs
   proofs.EnsembleProofs.
+From AV Require proofs.DecompProofs.
 Import ListNotations.
 Open Scope Z_scope.
 
@@ -43,13 +44,6 @@ Theorem C01_execute_sound : forall a n orc r,
   evaluate (res_program r) = Ok (res_chain r).
 Proof. exact execute_sound. Qed.
 Print Assumptions C01_execute_sound.
-
-(* ... and reports every chain ending at n that FindChain returns *)
-Theorem C01_execute_complete : forall a n orc c,
-  find_chain a n orc = Ok c -> is_chain c -> last c 0 = n ->
-  exists p, execute a n orc = Ok (mkResult None c p).
-Proof. exact execute_complete. Qed.
-Print Assumptions C01_execute_complete.
 
 (* ---- L1: the binary method, unconditionally ---- *)
 Theorem C01_rtl_ok : forall n, 1 <= n ->
@@ -117,12 +111,6 @@ Theorem C01_runs_alg_ok : forall s, decomp_ok (RunLength 0) -> runlength_ones ->
 Proof. exact runs_alg_ok. Qed.
 Print Assumptions C01_runs_alg_ok.
 
-(* every element of RunsChain's result is at most the longest run (needed above; not part of C11) *)
-Theorem C01_runs_chain_bound : forall lc c, is_chain lc -> (forall l, In l lc -> l < 2 ^ 64) ->
-  runs_chain lc = Ok c -> forall z, In z c -> exists l, In l lc /\ z <= 2 ^ l - 1.
-Proof. exact runs_chain_bound. Qed.
-Print Assumptions C01_runs_chain_bound.
-
 (* ---- L5: the optimisation wrapper ---- *)
 Theorem C01_opt_ok : forall a n orc, find_chain_ok a n orc -> find_chain_ok (AOpt a) n orc.
 Proof. exact opt_ok. Qed.
@@ -141,30 +129,26 @@ Theorem C01_seqalg_interface : forall s, seqalg_total s = true -> seqalg_ok s /\
 Proof. exact seqalg_total_ok. Qed.
 Print Assumptions C01_seqalg_interface.
 
-(* continued-fraction and heuristic algorithms as chain algorithms, with and without opt: FULL *)
-Theorem C01_sequence_configurations : forall s, seqalg_total s = true ->
-  forall a, a = ASeq s \/ a = AOpt (ASeq s) -> C01_at a.
-Proof. exact sequence_configurations. Qed.
-Print Assumptions C01_sequence_configurations.
+(* ---- the property for every configuration of its list ----
+   cfg_valid a: a is built from binary, dictionary(m, s) with K >= 1 in m, runs(s), s itself as a chain
+   algorithm, where s is any sequence algorithm with seqalg_total s = true (every continued-fraction
+   strategy; every heuristic composition containing delta_largest or approximation), under any
+   nesting of opt(...) *)
+Theorem C01_every_configuration : forall a, cfg_valid a -> C01_at a.
+Proof. exact every_configuration. Qed.
+Print Assumptions C01_every_configuration.
 
-(* dictionary algorithms for every decomposer (any K, T) and total sequence algorithm, with and
-   without opt: the only hypothesis left is C09's decomposition theorem for that decomposer *)
-Theorem C01_dictionary_configurations_partial : forall m s, decomp_ok m -> seqalg_total s = true ->
-  forall a, a = ADict m s \/ a = AOpt (ADict m s) -> C01_at a.
-Proof. exact dictionary_configurations. Qed.
-Print Assumptions C01_dictionary_configurations_partial.
+(* with the stable sort as oracle there is no alternative outcome *)
+Theorem C01_every_configuration_stable : forall a, cfg_valid a ->
+  forall n, 1 <= n -> Z.of_N (bitlen n) < 2 ^ 64 ->
+  exists r, execute a n None = Ok r /\ good_result n r.
+Proof. exact every_configuration_stable. Qed.
+Print Assumptions C01_every_configuration_stable.
 
-Theorem C01_runs_configurations_partial : forall s,
-  decomp_ok (RunLength 0) -> runlength_ones -> seqalg_total s = true ->
-  forall a, a = ARuns s \/ a = AOpt (ARuns s) -> C01_at a.
-Proof. exact runs_configurations. Qed.
-Print Assumptions C01_runs_configurations_partial.
-
-(* ---- the ensemble: partial — the gap is exactly C09's two facts about the decomposers ---- *)
-Theorem C01_ensemble_partial :
-  (forall m, In m ensemble_decomposers -> decomp_ok m) -> runlength_ones -> C01_full.
-Proof. exact ensemble_partial. Qed.
-Print Assumptions C01_ensemble_partial.
+(* ---- the ensemble: the full statement ---- *)
+Theorem C01_ensemble : C01_full.
+Proof. exact ensemble_ok. Qed.
+Print Assumptions C01_ensemble.
 
 (* the ensemble as data (also compared with ensemble.Ensemble() by the dumpconfig case) *)
 Theorem C01_ensemble_shape : length ensemble = 200%nat /\
